@@ -14,6 +14,7 @@ import (
 	"github.com/jamf/regatta/regattapb"
 	"github.com/jamf/regatta/storage/table"
 	"github.com/jamf/regatta/util/iter"
+	"github.com/lni/dragonboat/v4"
 	"github.com/lni/dragonboat/v4/client"
 	sm "github.com/lni/dragonboat/v4/statemachine"
 
@@ -29,12 +30,13 @@ type LogEntry struct {
 
 // Cluster is the shared log plus the replicas.
 type Cluster struct {
-	Log     []LogEntry
-	next    uint64
-	Nodes   []*Node
-	ShardID uint64
-	Base    uint64 // index before the first log entry
-	Eager   []bool // Eager[i]: node i applies every entry at commit time
+	Log        []LogEntry
+	next       uint64
+	Nodes      []*Node
+	ShardID    uint64
+	Base       uint64 // index before the first log entry
+	ReadFaults bool   // explore SyncRead failing with a temporary error on a lagging replica
+	Eager      []bool // Eager[i]: node i applies every entry at commit time
 }
 
 // Node is one replica with its applied position (count of log entries consumed).
@@ -171,6 +173,14 @@ func (h Host) SyncRead(ctx context.Context, _ uint64, q interface{}) (interface{
 		h.T.Point(fmt.Sprintf("n%d.readindex", n.ID))
 	}
 	ri := n.C.Commit()
+	if h.T != nil && n.C.ReadFaults && n.Applied() < ri {
+		// environment answer: the read index is not confirmed in time (temporary error); explored as a
+		// data choice whenever the replica lags (on an up-to-date replica a failed read can only be an
+		// error or the correct answer)
+		if h.T.Choose(fmt.Sprintf("n%d.readindex-times-out", n.ID), 2) == 1 {
+			return nil, dragonboat.ErrTimeout
+		}
+	}
 	if h.T != nil {
 		h.T.Await(fmt.Sprintf("n%d.wait-caughtup(%d)", n.ID, ri-n.C.Base), func() bool { return n.Applied() >= ri })
 		h.T.Point(fmt.Sprintf("n%d.lookup", n.ID))
